@@ -6,7 +6,9 @@ computes the real ``da.percentile(x, q, method=m)`` and checks what the statemen
   * every returned value lies in [min(data), max(data)]          (``:below-min`` / ``:above-max`` / ``:nan-result``)
   * the values are non-decreasing in q                            (``:not-monotone``)
   * q == 0 gives the minimum and q == 100 the maximum             (``:q0-not-min`` / ``:q100-not-max``)
-all "up to floating-point rounding": 8 eps of the result dtype times max |finite data|.
+all "up to floating-point rounding": 8 eps of the result dtype times max |finite data| times the number of
+merged terms ((len(q)+2) * number of chunks; calibration: linear interpolation in the rounded cumulative counts
+gave 58.99999999999982 for a maximum of 59.0 with 7 chunks and fractional q).
 Nothing else is demanded (the statement does not say the approximation equals np.percentile).
 A scalar q (0-d result) is generated as well.
 
@@ -18,8 +20,12 @@ on its fast path: last axis, method linear).
 Domain: int8/int64/uint8/float32/float64; +-inf only in cases flagged ``inf`` (labelled facet
 ``&inf``); q in [0, 100]; internal_method 'tdigest' needs the uninstalled ``crick`` (not generated).
 
-Labels ``percentile:method=<m>&<multi-chunk|single-chunk>[&inf]:<symptom>`` and
-``nanpercentile:<fast-path|numpy-path>[&inf][&all-nan-slice]:<symptom>``.
+Labels ``percentile:method=<m>&<multi-chunk|single-chunk>:<symptom>``; a wrong end point is reported once per case and
+is then left out of the monotonicity check, so ``not-monotone`` means a decrease among the remaining values.  The inf
+facet is ``percentile:method=<m>&inf:<symptom>``: it is used when the data contain +-inf AND the symptom disappears once
+the infinities are replaced by finite values beyond the finite range (causal minimisation by re-running the real API).
+``nanpercentile:<fast-path|numpy-path>[&inf][&all-nan-slice]:values`` (features kept only if the mismatch needs them,
+decided the same way) / ``nanpercentile:<path>[&float32]:dtype|shape``.
 
 Calibration (unchanged tree): see PENDING / findings_proposed/C32.md.
 """
@@ -137,11 +143,12 @@ def _data_a(case):
     unsigned = dtype.startswith("uint")
     if flav == "wide":
         if dtype.startswith("float"):
-            a = (r.normal(size=n) * 10 ** r.integers(-2, 4)).astype(dtype)
+            a = (r.normal(size=n) * 10.0 ** int(r.integers(-2, 4))).astype(dtype)
         elif dtype == "int64":
             a = r.integers(-10 ** 6, 10 ** 6, n).astype(dtype)
         else:
-            a = r.integers(0 if unsigned else -100, 101, n).astype(dtype)
+            # int8 stays within [-60, 60]: np.percentile itself overflows in `b - a` for int8 spans > 127 (Calibration)
+            a = r.integers(0 if unsigned else -60, 101 if unsigned else 61, n).astype(dtype)
     else:
         alpha = r.integers(0 if unsigned else -4, 6, r.integers(1, 5))
         a = alpha[r.integers(0, len(alpha), n)]
@@ -194,9 +201,71 @@ def run_case(case, ctx):
                 _run_b(case, ctx)
 
 
-def _run_a(case, ctx):
+class _Raised(Exception):
+    def __init__(self, exc):
+        self.exc = exc
+
+
+def _eval_a(x, chunks, q, m):
+    """Run the real da.percentile and apply the statement's checks.
+    -> (lazy array, result as float64 vector, tolerance, [(symptom, message)])"""
     import dask.array as da
 
+    scalar = not isinstance(q, list)
+    qv = np.atleast_1d(np.asarray(q, dtype="float64"))
+    dx = da.from_array(x, chunks=chunks)
+    try:
+        r = da.percentile(dx, q, method=m)
+        if not isinstance(r, da.Array):
+            return None, None, 0.0, [("result-not-a-dask-array", "got %r" % (type(r),))]
+        rv = np.asarray(r.compute(scheduler="sync"))
+    except NotImplementedError:
+        raise
+    except Exception as ex:  # noqa: BLE001
+        raise _Raised(ex)
+    out = []
+    if rv.shape != (() if scalar else (len(qv),)):
+        return r, None, 0.0, [("shape", "result shape %s for q %r" % (rv.shape, q))]
+    lm = lazy_meta_mismatch(r, rv)
+    if lm and lm[0] != "lazy-dtype":
+        out.append((lm[0], lm[1]))
+    p = np.atleast_1d(rv)
+    eps = float(np.finfo(p.dtype).eps) if p.dtype.kind == "f" else float(np.finfo("float64").eps)
+    pf = p.astype("float64")
+    fin = np.abs(x[np.isfinite(x)].astype("float64")) if x.dtype.kind == "f" else np.abs(x.astype("float64"))
+    scale = float(fin.max()) if fin.size else 1.0
+    # "up to floating-point rounding": the merge sums len(q)+2 fractional counts per chunk and interpolates
+    # in them, so the rounding allowance grows with the number of merged terms (as for an n-term sum)
+    nterms = (len(qv) + 2) * len(chunks[0])
+    tol = 8 * eps * max(scale, 1e-300) * nterms
+    lo_f, hi_f = float(x.min()), float(x.max())
+    if np.isnan(pf).any():
+        out.append(("nan-result", "NaN in the result for NaN-free data"))
+        return r, pf, tol, out
+    if (pf < lo_f - tol).any():
+        out.append(("below-min", "a percentile lies below min(data)=%r" % lo_f))
+    if (pf > hi_f + tol).any():
+        out.append(("above-max", "a percentile lies above max(data)=%r" % hi_f))
+    wrong_end = set()
+    for i, qq in enumerate(qv):
+        if qq == 0 and not _close(pf[i], lo_f, tol):
+            if not any(qv[j] == 0 for j in wrong_end):
+                out.append(("q0-not-min", "q=0 gives %r, min(data)=%r" % (float(pf[i]), lo_f)))
+            wrong_end.add(i)
+        elif qq == 100 and not _close(pf[i], hi_f, tol):
+            if not any(qv[j] == 100 for j in wrong_end):
+                out.append(("q100-not-max", "q=100 gives %r, max(data)=%r" % (float(pf[i]), hi_f)))
+            wrong_end.add(i)
+    # monotonicity of everything that is not already reported as a wrong end point
+    keep = [i for i in range(len(pf)) if i not in wrong_end]
+    for a_, b_ in zip(keep, keep[1:]):
+        if not (pf[b_] >= pf[a_] - tol):
+            out.append(("not-monotone", "result decreases between q=%r and q=%r" % (float(qv[a_]), float(qv[b_]))))
+            break
+    return r, pf, tol, out
+
+
+def _run_a(case, ctx):
     x = _data_a(case)
     chunks = (tuple(case["chunks"]),)
     m = case["method"]
@@ -208,64 +277,43 @@ def _run_a(case, ctx):
     ctx.nontrivial = len(chunks[0]) >= 2
     ctx.sig = ("A", x.tolist(), str(x.dtype), case["chunks"], m, q)
     ctx.distinct("method_chunked", (m, ctx.nontrivial, scalar))
-    feat = "method=%s&%s%s" % (m, "multi-chunk" if ctx.nontrivial else "single-chunk", "&inf" if has_inf else "")
-    dx = da.from_array(x, chunks=chunks)
+    feat = "method=%s&%s" % (m, "multi-chunk" if ctx.nontrivial else "single-chunk")
     try:
-        r = da.percentile(dx, q, method=m)
-        if not isinstance(r, da.Array):
-            ctx.violation("percentile:%s:result-not-a-dask-array" % feat, "got %r" % (type(r),))
-            return
-        rv = np.asarray(r.compute(scheduler="sync"))
+        r, pf, tol, symptoms = _eval_a(x, chunks, q, m)
     except NotImplementedError as ex:
         ctx.unsupported(str(ex))
         return
-    except Exception as ex:  # noqa: BLE001
-        ctx.exception(ex, prefix="percentile:" + feat)
+    except _Raised as ex:
+        ctx.exception(ex.exc, prefix="percentile:" + feat + ("&inf" if has_inf else ""))
         return
     ctx.count("percentile_results")
-    if rv.shape != (() if scalar else (len(qv),)):
-        ctx.violation("percentile:%s:shape" % feat, "result shape %s for q %r" % (rv.shape, q))
-        return
-    lm = lazy_meta_mismatch(r, rv)
-    if lm and lm[0] != "lazy-dtype":
-        ctx.violation("percentile:%s:%s" % (feat, lm[0]), lm[1])
-    p = np.atleast_1d(rv).astype("float64") if rv.dtype.kind in "iub" else np.atleast_1d(rv)
-    lo, hi = x.min(), x.max()
-    fin = np.abs(x[np.isfinite(x)].astype("float64")) if x.dtype.kind == "f" else np.abs(x.astype("float64"))
-    scale = float(fin.max()) if fin.size else 1.0
-    eps = float(np.finfo(p.dtype).eps) if p.dtype.kind == "f" else float(np.finfo("float64").eps)
-    tol = 8 * eps * max(scale, 1e-300)
-    lo_f, hi_f = float(lo), float(hi)
-    pf = p.astype("float64")
-    detail = {"data": x.tolist(), "chunks": case["chunks"], "q": qv.tolist(), "result": pf.tolist()}
-    ctx.count("bounds_checked", len(pf))
-    if np.isnan(pf).any():
-        ctx.violation("percentile:%s:nan-result" % feat, "NaN in the result for NaN-free data", **detail)
-    else:
-        if (pf < lo_f - tol).any():
-            ctx.violation("percentile:%s:below-min" % feat, "a percentile lies below min(data)=%r" % lo_f, **detail)
-        if (pf > hi_f + tol).any():
-            ctx.violation("percentile:%s:above-max" % feat, "a percentile lies above max(data)=%r" % hi_f, **detail)
+    if pf is not None:
+        ctx.count("bounds_checked", len(pf))
         ctx.count("monotone_checked", max(len(pf) - 1, 0))
-        # inf - inf = nan for equal infinities: equal values are non-decreasing
-        dec = [i for i in range(len(pf) - 1) if not (pf[i + 1] >= pf[i] - tol)]
-        if dec:
-            ctx.violation("percentile:%s:not-monotone" % feat, "result decreases between q=%r and q=%r"
-                          % (qv[dec[0]], qv[dec[0] + 1]), **detail)
-        for i, qq in enumerate(qv):
-            if qq == 0:
-                ctx.count("q0_checked")
-                if not _close(pf[i], lo_f, tol):
-                    ctx.violation("percentile:%s:q0-not-min" % feat, "q=0 gives %r, min(data)=%r" % (pf[i], lo_f), **detail)
-                    break
-        for i, qq in enumerate(qv):
-            if qq == 100:
-                ctx.count("q100_checked")
-                if not _close(pf[i], hi_f, tol):
-                    ctx.violation("percentile:%s:q100-not-max" % feat, "q=100 gives %r, max(data)=%r" % (pf[i], hi_f), **detail)
-                    break
-    ctx.sample = {"data": x.tolist()[:12], "chunks": case["chunks"], "method": m, "q": qv.tolist(), "result": pf.tolist(),
-                  "rounding_tolerance": tol}
+        ctx.count("q0_checked", int((qv == 0).sum()))
+        ctx.count("q100_checked", int((qv == 100).sum()))
+    if symptoms:
+        without_inf = None
+        if has_inf:
+            # classifier (causal minimisation): the same input with +-inf replaced by finite values beyond the
+            # finite range; a symptom that disappears is caused by the infinities -> facet label `&inf`
+            fin = x[np.isfinite(x)]
+            hi = (fin.max() if fin.size else 0) + 1
+            lo = (fin.min() if fin.size else 0) - 1
+            x2 = np.where(np.isposinf(x), hi, np.where(np.isneginf(x), lo, x)).astype(x.dtype)
+            try:
+                without_inf = {sy for sy, _ in _eval_a(x2, chunks, q, m)[3]}
+            except Exception:  # noqa: BLE001
+                without_inf = set()
+        detail = {"data": x.tolist(), "chunks": case["chunks"], "q": qv.tolist(),
+                  "result": None if pf is None else pf.tolist()}
+        for sy, msg in symptoms:
+            if without_inf is not None and sy not in without_inf:
+                ctx.violation("percentile:method=%s&inf:%s" % (m, sy), msg, **detail)
+            else:
+                ctx.violation("percentile:%s:%s" % (feat, sy), msg, **detail)
+    ctx.sample = {"data": x.tolist()[:12], "chunks": case["chunks"], "method": m, "q": qv.tolist(),
+                  "result": None if pf is None else pf.tolist(), "rounding_tolerance": tol}
 
 
 def _close(a, b, tol):
@@ -274,49 +322,84 @@ def _close(a, b, tol):
     return abs(a - b) <= tol
 
 
-def _run_b(case, ctx):
+def _eval_b(x, chunks, q, axis, m, kd):
+    """-> (lazy array, computed value, None | (symptom, message)); numpy refusing -> _Reject"""
     import dask.array as da
 
+    e = np.asarray(np.nanpercentile(x, q, axis=axis, method=m, keepdims=kd))
+    dx = da.from_array(x, chunks=chunks)
+    try:
+        r = da.nanpercentile(dx, q, axis=axis, method=m, keepdims=kd)
+        rv = np.asarray(r.compute(scheduler="sync"))
+    except NotImplementedError:
+        raise
+    except Exception as ex:  # noqa: BLE001
+        raise _Raised(ex)
+    fin = np.abs(x[np.isfinite(x)].astype("float64")) if x.dtype.kind == "f" else np.abs(x.astype("float64"))
+    scale = float(fin.max()) if fin.size else 1.0
+    # working precision = the less precise of input and result dtype (NumPy forms b - a in the input precision)
+    factor = 8.0
+    if x.dtype == np.dtype("float32") and e.dtype == np.dtype("float64"):
+        factor *= float(np.finfo("float32").eps) / float(np.finfo("float64").eps)
+    mm = compare_arrays(rv, e, exact=False, n=4, scale=scale, factor=factor)
+    if mm is None:
+        lm = lazy_meta_mismatch(r, rv)
+        if lm and lm[0] != "lazy-dtype":
+            mm = lm
+    return r, rv, mm
+
+
+def _run_b(case, ctx):
     x = _data_b(case)
     chunks = A.chunks_of_desc(case["chunks"])
     axis, q, m, kd = case["axis"], case["q"], case["method"], case["keepdims"]
     ax = axis % x.ndim
     fast = x.ndim > 1 and ax == x.ndim - 1 and m == "linear"
-    f = ["fast-path" if fast else "numpy-path"]
-    if x.dtype.kind == "f" and np.isinf(x).any():
-        f.append("inf")
-    if x.dtype.kind == "f" and np.isnan(x).all(axis=ax).any():
-        f.append("all-nan-slice")
-    feat = "&".join(f)
+    path = "fast-path" if fast else "numpy-path"
+    has_inf = bool(x.dtype.kind == "f" and np.isinf(x).any())
+    allnan = np.isnan(x).all(axis=ax, keepdims=True) if x.dtype.kind == "f" else None
     ctx.op("nanpercentile:" + m)
     ctx.nontrivial = A.has_split(chunks)
     ctx.sig = ("B", case["shape"], case["dtype"], case["flavour"], case["seed"], case["chunks"], axis, q, m, kd)
     ctx.distinct("nanpercentile_path", (fast, len(chunks[ax]) > 1, isinstance(q, list), kd))
     try:
-        e = np.asarray(np.nanpercentile(x, q, axis=axis, method=m, keepdims=kd))
-    except Exception as ex:  # noqa: BLE001
-        ctx.reject("numpy: %s: %s" % (type(ex).__name__, ex))
-        return
-    dx = da.from_array(x, chunks=chunks)
-    try:
-        r = da.nanpercentile(dx, q, axis=axis, method=m, keepdims=kd)
-        rv = np.asarray(r.compute(scheduler="sync"))
+        r, rv, mm = _eval_b(x, chunks, q, axis, m, kd)
     except NotImplementedError as ex:
         ctx.unsupported(str(ex))
         return
-    except Exception as ex:  # noqa: BLE001
-        ctx.exception(ex, prefix="nanpercentile:" + feat)
+    except _Raised as ex:
+        ctx.exception(ex.exc, prefix="nanpercentile:" + path)
+        return
+    except Exception as ex:  # noqa: BLE001  (NumPy refused)
+        ctx.reject("numpy: %s: %s" % (type(ex).__name__, ex))
         return
     ctx.count("nanpercentile_compared")
     if fast:
         ctx.count("nanpercentile_fast_path")
-    fin = np.abs(x[np.isfinite(x)].astype("float64")) if x.dtype.kind == "f" else np.abs(x.astype("float64"))
-    scale = float(fin.max()) if fin.size else 1.0
-    mm = compare_arrays(rv, e, exact=False, n=4, scale=scale)
     if mm:
-        ctx.violation("nanpercentile:%s:%s" % (feat, mm[0]), mm[1], q=q, axis=axis, chunks=case["chunks"])
-    lm = lazy_meta_mismatch(r, rv)
-    if lm and lm[0] != "lazy-dtype":
-        ctx.violation("nanpercentile:%s:%s" % (feat, lm[0]), lm[1])
+        f = [path]
+        if mm[0] == "values":
+            # classifier (causal minimisation): keep `inf` / `all-nan-slice` only if the symptom needs them
+            def still(x2):
+                try:
+                    m2 = _eval_b(x2, chunks, q, axis, m, kd)[2]
+                except Exception:  # noqa: BLE001
+                    return True
+                return m2 is not None and m2[0] == mm[0]
+
+            if has_inf and not still(np.where(np.isinf(x), x.dtype.type(1), x)):
+                f.append("inf")
+            if allnan is not None and allnan.any():
+                x3 = x.copy()
+                first = np.zeros(x.shape, dtype=bool)
+                sl = [slice(None)] * x.ndim
+                sl[ax] = slice(0, 1)
+                first[tuple(sl)] = True
+                x3[np.broadcast_to(allnan, x.shape) & first] = 0
+                if not still(x3):
+                    f.append("all-nan-slice")
+        elif x.dtype == np.dtype("float32"):
+            f.append("float32")
+        ctx.violation("nanpercentile:%s:%s" % ("&".join(f), mm[0]), mm[1], q=q, axis=axis, chunks=case["chunks"])
     ctx.sample = {"shape": case["shape"], "chunks": case["chunks"], "axis": axis, "q": q, "method": m,
                   "result_shape": list(rv.shape), "dtype": str(rv.dtype)}
